@@ -75,11 +75,15 @@ def run(ck: Checker):
                     from ..core import single_def
                     d = single_def(fn, amap)
                     good = good and d is not None and norm(d) == f'dict({p})'
-        ck.check(good, 'C15.DEFAULT', m, fn, f'{fname}: every input absent from the assignment is Undefined before evaluation; the assignment is copied',
-                 'no `for i in self._inputs: A.setdefault(i, Undefined)` on a copy `dict(assignment)` before the first operator application',
-                 construct=f'{fname} defaulting loop')
+        ck.decide(True if good else None, 'C15.DEFAULT', m, fn, f'{fname}: every input absent from the assignment is Undefined before evaluation; the assignment is copied',
+                  'no `for i in self._inputs: A.setdefault(i, Undefined)` on a copy `dict(assignment)` before the first operator application',
+                  construct=f'{fname} defaulting loop', covered_by='C15.FOLD (absent inputs behave as Undefined ones; the caller\'s assignment is untouched)')
     ck.floor('C15.DEFAULT', 2)
+    ck.rule('C15.FOLD', 'the evaluators folded on instances of the repository\'s Circuit class over a family of model circuits and every assignment over False/True/Undefined: a reported True/False holds under every completion, defining one more input never changes a defined result, total assignments leave no evaluated gate undefined, absent inputs are Undefined, the caller\'s assignment is untouched')
+    from .. import eval_fold
+    eval_fold.fold_evaluators(ck, 'C15.FOLD')
+    ck.floor('C15.FOLD', 6)
     # values flow only through operators
     ck.rule('C01.APPLY', 'shape of the evaluators (shared with C01)')
-    apply_rules(ck, 'C01.APPLY')
+    apply_rules(ck, 'C01.APPLY', covered_by='C15.FOLD (fold of the evaluators over model circuits)')
     ck.assume('traversal order/termination of the explicit-stack evaluator is not decided here (C01/C20 undecided clause)')
